@@ -813,6 +813,50 @@ class ImportedNamesakes(object):
         return 'ok' if not vs else 'bad', vs, 2
 
 
+class OddRefinementsWithDefaults(object):
+    name = 'refinements-of-another-kind-than-the-type'
+    describe = ('an object narrowing a named ENUMERATED type by a range, or a named ranged type by nothing, with a DEFVAL label / '
+                'number: both back ends compile, the default is the declared number, the pysnmp module executes')
+
+    CASES = {'enum-narrowed-by-range': ('MyEnum ::= INTEGER { a(1), b(2), c(3) }', 'MyEnum (1..2)', 'a', 1),
+             'enum-narrowed-by-range-second-label': ('MyEnum ::= INTEGER { a(1), b(2), c(3) }', 'MyEnum (1..2)', 'b', 2),
+             'enum-inherited-whole': ('MyEnum ::= INTEGER { a(1), b(2), c(3) }', 'MyEnum', 'c', 3),
+             'enum-narrowed-by-enum': ('MyEnum ::= INTEGER { a(1), b(2), c(3) }', 'MyEnum { b(2), c(3) }', 'c', 3)}
+
+    def blocks(self, tier):
+        return [{}]
+
+    def cases(self, block, tier):
+        for k in sorted(self.CASES):
+            yield {'k': k}
+
+    def run_case(self, case):
+        tdef, syn, label, number = self.CASES[case['k']]
+        text = ('TEST-MIB DEFINITIONS ::= BEGIN\nIMPORTS OBJECT-TYPE, enterprises FROM SNMPv2-SMI;\n%s\n'
+                'o1 OBJECT-TYPE SYNTAX %s MAX-ACCESS read-write STATUS current DESCRIPTION "d" DEFVAL { %s } ::= { enterprises 99 }\n'
+                'END\n' % (tdef, syn, label))
+        sig = 'C05|odd-refinement|%s' % case['k']
+        vs = []
+        for backend in ('json', 'pysnmp'):
+            parser = env.shared_parser('smiV2')
+            parser.reset()
+            res, written = env.compile_set({'TEST-MIB': text}, ['TEST-MIB'], codegen=backend, dialect=parser)
+            if res.get('TEST-MIB') != 'compiled':
+                vs.append(('%s|%s|not-compiled' % (sig, backend), '%r\n%s' % (getattr(res.get('TEST-MIB'), 'error', None), text)))
+                continue
+            if backend == 'json':
+                d = (json.loads(written['TEST-MIB']).get('o1', {}).get('default') or {}).get('default') or {}
+                if d.get('value') != label or d.get('number', number) != number:
+                    vs.append(('%s|json|default-differs' % sig, repr(d)))
+            else:
+                ns, err = pysnmp_rec.run_module(written['TEST-MIB'], pysnmp_rec.RecBuilder())
+                if err:
+                    vs.append(('%s|pysnmp|does-not-execute|%s' % (sig, err.split(':')[0]), err))
+                elif 'defaultValue = %d' % number not in written['TEST-MIB']:
+                    vs.append(('%s|pysnmp|default-differs' % sig, [ln for ln in written['TEST-MIB'].splitlines() if 'default' in ln.lower()][:4]))
+        return 'ok' if not vs else 'bad', vs, 2
+
+
 class LongChains(object):
     name = 'very-long-chains'
     describe = ('a chain of 1500 type assignments ending in an enumeration with a DEFVAL { label } on an object at its end, and an '
@@ -860,4 +904,4 @@ class LongChains(object):
 
 
 FAMILIES = [Refinements(), Defaults(), SameNamedTypes(), RefinedChains(), ShoutedNames(), DefaultsFromFiles(), ImportedNamesakes(),
-            LongChains()]
+            OddRefinementsWithDefaults(), LongChains()]
